@@ -27,7 +27,7 @@ class C09(core.Check):
         'cycle:2', 'cycle:3', 'cycle:4', 'use-before-define', 'double:isa+isa', 'double:isa+cli', 'double:isa+define',
         'double:cli+cli', 'double:cli+define', 'double:define+define', 'expands-to:register', 'expands-to:label',
         'expands-to:expression', 'source:isa', 'source:cli', 'source:define', 'unparenthesised-expression-value', 'double:identical-text',
-        'quoted-value-used', 'valueless-symbol-used', 'define-while-muted', 'same-line-text-repeated', 'quoted-value-from:isa', 'quoted-value-from:cli', 'quoted-value-from:define']}
+        'quoted-value-used', 'quoted-value-with-blank-run', 'valueless-symbol-used', 'define-while-muted', 'same-line-text-repeated', 'quoted-value-from:isa', 'quoted-value-from:cli', 'quoted-value-from:define']}
 
     def build(self, rng, mode, quoted=None, muted=None, nil=None):
         tags = set()
@@ -130,7 +130,11 @@ class C09(core.Check):
         if spare and (quoted if quoted is not None else rng.random() < 0.25):
             q_sym = spare[0]
             q_kind = rng.choice(['str', 'chr'])
-            q_text = rng.choice(['"ok"', '"a b"', '"x"', "'hi there'"]) if q_kind == 'str' else rng.choice(["'B'", "'7'", "'z'"])
+            # (runs of blanks and tabs inside the quotes belong to the replacement text)
+            q_text = rng.choice(['"ok"', '"a b"', '"x"', "'hi there'", '"A  B"', '"t\tab"', '"  lead"', '"trail   "', "'two  gaps  here'"]) \
+                if q_kind == 'str' else rng.choice(["'B'", "'7'", "'z'", "' '", "'\t'"])
+            if '  ' in q_text or '\t' in q_text:
+                tags.add('quoted-value-with-blank-run')
             defs.append((q_sym, q_text, None))
             tags.add('expands-to:quoted-' + q_kind)
         # a symbol defined without a value: every whole-word occurrence is replaced by nothing
